@@ -82,8 +82,8 @@ func predC16(c *vk.Ctx, o *hubObs) {
 		// "... is accepted and keeps being refreshed even when its signer cannot be verified": a pass contacts the origin of every
 		// CRL that was taken in (model and code agreed on every observable up to this step)
 		for _, l := range []string{"D", "U"} {
-			if (l == "U" && o.Cfg.Conf != "url") || o.Exp.Fetch[l] == 0 || o.Fetched[l] > 0 {
-				continue
+			if (l == "U" && o.Cfg.Conf != "url") || o.Exp.Fetch[l] == 0 || o.Fetched[l] > 0 || (o.Refetched != nil && o.Refetched[l] > 0) {
+				continue // (fetched, or fetched by the second pass that was run to make sure: a transient, not "no longer refreshed")
 			}
 			c.Violation(fmt.Sprintf("%s:crl-no-longer-refreshed:loc=%s:intake=%s", sig, l, lastIntake(o)),
 				fmt.Sprintf("under %s the %s pass did not fetch location %s again although that CRL had been taken in; cfg=%s", sig, o.Op[0], l, o.Cfg), hubReplay(o))
@@ -535,7 +535,7 @@ func predC15hub(c *vk.Ctx, o *hubObs) {
 			if l == "U" && o.Cfg.Conf != "url" {
 				continue // a file is not observable at an origin
 			}
-			if o.Exp.Fetch[l] > 0 && o.Fetched[l] == 0 {
+			if o.Exp.Fetch[l] > 0 && o.Fetched[l] == 0 && !(o.Refetched != nil && o.Refetched[l] > 0) {
 				c.Violation(fmt.Sprintf("known-crl-not-fetched-by-pass:loc=%s:pass=%s:sig=%s:fetch=%s", l, o.Op[0], o.Cfg.Sig, o.Cfg.Fetch),
 					fmt.Sprintf("the %s pass did not contact the origin of location %s although the validator knows that CRL (it was taken in earlier in this history); cfg=%s", o.Op[0], l, o.Cfg), hubReplay(o))
 			}
